@@ -222,6 +222,7 @@ class Program:
         self.functions = {}      # printed name -> Function
         self.closure_by_type = {}  # '{closure@src/..}' -> Function
         self.order = []
+        self.static_allocs = {}   # allocN -> name of the static it is
         self._index(path)
 
     def _index(self, path):
@@ -245,6 +246,22 @@ class Program:
                 self.order.append(name)
                 i = j + 1
                 continue
+            if m and not ln.startswith(' ') and ln.endswith(';') and ' = const ' in ln:
+                # one-line constant:  const NAME: TYPE = const VALUE;
+                rest = m.group(2)
+                name = self._header_name(m.group(1), rest)
+                val = ln[ln.index(' = const ') + len(' = const '):-1]
+                fn = Function(name, ln, [ln], i + 1)
+                fn.kind = 'constval'
+                fn.value = parse_const(val.strip())
+                fn.parsed = True
+                self.functions[name] = fn
+                i += 1
+                continue
+            if ln.startswith('alloc') and '(static: ' in ln:
+                am = re.match(r'^(alloc\d+) \(static: ([^,)]+)', ln)
+                if am:
+                    self.static_allocs[am.group(1)] = am.group(2).strip()
             if ln.startswith('promoted['):
                 # "promoted[0] in foo::bar: &T = {"
                 j = i + 1
